@@ -2,7 +2,7 @@
 \* JUN, JMS, ISZ, BBL, undefined FE/FF, 4040-only 01..03), other cells = representative bytes; 1..2 entries
 CONSTANTS IsaName = "4004" Cpu = "4004" N = 3 Org = 256 MaxEntries = 2 EntrySpan = 4 AllFirst = FALSE
   FirstBytes = {0, 20, 33, 64, 65, 80, 81, 113, 192, 49, 254, 1, 2, 3}
-  OtherBytes = {0, 1, 2, 3, 20, 65, 192, 255}
+  OtherBytes = {0, 1, 2, 20, 65, 192}
   VecAddrs = {}
 SPECIFICATION Spec
 INVARIANTS TerminatesWithin InvInside InvSound InvComplete InvDisjoint InvRoundTrip InvRunAgrees
